@@ -428,10 +428,14 @@ class Run(object):
     # second life: the owner closes the pool and opens it again (a resurrector or balancer that is re-opened does);
     # the full capacity must be there again
     self.cur_op = ['reopen']
-    for r in list(self.lent()):
-      self.answer(r, 'reply')
-    settle()
-    advance(0.01)
+    for _ in range(50):       # a released connection may go straight to a request that was still queued: answer those too
+      l = self.lent()
+      if not l:
+        break
+      for r in l:
+        self.answer(r, 'reply')
+      settle()
+      advance(0.01)
     self.pool.Close()
     settle()
     ar = self.pool.Open()
